@@ -107,7 +107,7 @@ def one_case(ctx, index, want_model=True):
     rng = ctx.rng('seq%d' % index)
     cache = rng.random() < 0.5
     system = filegen.rand_system(rng)
-    seq, nb, sysw = filegen.random_sequence(rng, system=system, use_block_cache=cache)
+    seq, nb, sysw = filegen.random_sequence(rng, system=system, use_block_cache=cache, history=True)
     sysr = filegen.rand_system(rng, default_prob=0.3)
     if nb == 0:
         ctx.count('skipped.empty')
@@ -116,26 +116,41 @@ def one_case(ctx, index, want_model=True):
     if not ok:
         ctx.count('skipped.check_timing')
         return None
-    case = {'index': index, 'blocks': nb, 'cache': cache}
+    # the options of write(): none of them may change the content (remove_duplicates stays on: the property's default)
+    sig = rng.random() < 0.8
+    ct1 = rng.random() < 0.5
+    o1 = dict(create_signature=sig, check_timing=ct1)
+    o2 = dict(create_signature=sig, check_timing=not ct1)
+    if rng.random() < 0.3:
+        o1['remove_duplicates'] = True
+    hist = getattr(seq, '_gen_history', None)
+    case = {'index': index, 'blocks': nb, 'cache': cache, 'write1': o1, 'write2': o2, 'history': hist,
+            'midwrite': bool(getattr(seq, '_gen_midwrite', False))}
+    if hist:
+        ctx.count('history.out_of_order' if hist['out_of_order'] else 'history.noncontiguous' if hist['noncontiguous'] else 'history.plain')
+    if case['midwrite']:
+        ctx.count('history.written_before_complete')
+    ctx.count('write1.check_timing_%s' % ct1)
+    ctx.count('write.signature_%s' % sig)
     blocks0 = block_snapshot(seq)
     libs0 = lib_snapshot(seq)
     with tempfile.TemporaryDirectory(prefix='pvC02') as d:
         f1, f2, f3 = (os.path.join(d, n) for n in ('a.seq', 'b.seq', 'c.seq'))
         try:
-            h1 = seq.write(f1, create_signature=True)
+            h1 = seq.write(f1, **o1)
         except AssertionError:
             ctx.count('skipped.write_assertion')
             return None
         libs1 = lib_snapshot(seq)
         try:
             blocks1 = block_snapshot(seq)
-            h2 = seq.write(f2, create_signature=True)
+            h2 = seq.write(f2, **o2)
             d1, d2 = open(f1, 'rb').read(), open(f2, 'rb').read()
             used = rng.random() < 0.5
             s2 = filegen.used_reader(rng, sysr, d) if used else pp.Sequence(sysr, use_block_cache=rng.random() < 0.5)
             ctx.count('reader.' + ('with_prior_content' if used else 'fresh'))
             s2.read(f1)
-            s2.write(f3, create_signature=True)
+            s2.write(f3, create_signature=sig)
             d3 = open(f3, 'rb').read()
         except Exception as e:  # noqa: BLE001
             k = first_diff(libs0, libs1)
@@ -152,8 +167,10 @@ def one_case(ctx, index, want_model=True):
     ok = True
     if d1 != d2 or h1 != h2:
         ok = False
-        ctx.fail('C02/write-twice-differs', case, {'first_diff_byte': next((i for i in range(min(len(d1), len(d2))) if d1[i] != d2[i]), -1),
-                                                  'len1': len(d1), 'len2': len(d2)})
+        l1, l2 = d1.decode(errors='replace').split('\n'), d2.decode(errors='replace').split('\n')
+        j = next((i for i in range(min(len(l1), len(l2))) if l1[i] != l2[i]), min(len(l1), len(l2)))
+        ctx.fail('C02/write-twice-differs', case, {'line': j, 'first': l1[j] if j < len(l1) else None,
+                                                  'second': l2[j] if j < len(l2) else None, 'len1': len(d1), 'len2': len(d2)})
     k = first_diff(blocks0, blocks1)
     if k is not None:
         ok = False
